@@ -9,8 +9,8 @@ import (
 	"cmp"
 	_ "embed"
 	"fmt"
+	"go/format"
 	"go/parser"
-	"go/printer"
 	"go/token"
 	"io"
 	"iter"
@@ -1407,8 +1407,9 @@ func (t *Tree) Compile(file string, args []string, out io.Writer) (err error) {
 		_, _ = buffer.WriteTo(out)
 		return err
 	}
-	formatter := printer.Config{Mode: printer.TabIndent | printer.UseSpaces, Tabwidth: 8}
-	err = formatter.Fprint(out, fileSet, code)
+	// format.Node is what gofmt does: the printer configuration used so far plus gofmt's
+	// normalisation of number literals in the grammar's Go code (0X1F, 1E3, ...)
+	err = format.Node(out, fileSet, code)
 	if err != nil {
 		_, _ = buffer.WriteTo(out)
 		return err
